@@ -253,6 +253,17 @@ class Sched(object):
             self._handoff(me, nxt)
         self.log.append((me.tid, kind, key))
 
+    def check_alive(self):
+        """harness observation points call this first: a crash delivered inside a finaliser
+        (file object closed by refcount) is swallowed by the interpreter, the task must still stop"""
+        me = self.by_ident.get(_thread.get_ident())
+        if me is None:
+            return
+        if self.aborting:
+            raise SimAbort()
+        if me.proc.dead:
+            raise SimCrash()
+
     def abort(self, why):
         """called from a task: stop the whole run"""
         me = self._me()
